@@ -503,7 +503,8 @@ def rule_l2(chk: Check, ix: Index):
     he = ix.get("handle_end_progs")
     from ..pyflow import CFG
     cfg = CFG(he.node)
-    starts = [c.id for c in cfg.nodes if c.stmt is not None and c.kind == "stmt" and "handle_fstring_progs(" in norm_stmt(c.stmt)]
+    starts = [c.id for c in cfg.nodes if (c.stmt is not None and c.kind == "stmt" and "handle_fstring_progs(" in norm_stmt(c.stmt))
+              or (c.kind == "test" and "handle_fstring_progs(" in c.label)]
     acc_calls = tuple(f".{q.split('.')[1]}(" for q in accum)
     joins = [c.id for c in cfg.nodes if c.stmt is not None and c.kind == "stmt" and any(a in norm_stmt(c.stmt) for a in acc_calls)]
     guards = [c.id for c in cfg.nodes if c.kind == "test" and "state.in_braces()" in c.label]
@@ -517,29 +518,110 @@ def rule_l2(chk: Check, ix: Index):
     chk.require(ok, "L2-accumulation", "handle_end_progs:no-join-in-braces", he.where,
                 "after the f-string scanner has opened a replacement field the rest of the line is expression text; the line-joining tail "
                 "must be skipped when `state.in_braces()` (otherwise a field left open at a backslash-newline swallows the line without tokens)")
-    # a one-quote string that does not end on its line and is not continued must be refused, not left open: otherwise its text is
-    # scanned again as ordinary tokens and the next line is glued onto the opening quote
-    chk.count("L2-accumulation")
+    # The tail of handle_end_progs (join the rest of the line onto the open literal / refuse / leave) by path.  The "scanner step" of a
+    # path is the call of the f-string scanner or, for a plain string, the match of its end pattern.
     from ..pyflow import stmt_paths as _sp3
-    ok = False
+    why_match = why_join = why_open = ""
+    # the argument-less predicates of TokenizerState that are `self.in_mode(<Mode subclass>)`, one per subclass of Mode
+    tkmod = ix.modules[repo.TOKENIZE]
+    mode_classes = {c.name for c in tkmod.body if isinstance(c, ast.ClassDef) and any(norm_stmt(b) == "Mode" for b in c.bases)}
+    for st in tkmod.body:      # ... or the members of the union alias `Mode = A | B | C`
+        if isinstance(st, ast.Assign) and len(st.targets) == 1 and norm_stmt(st.targets[0]) == "Mode":
+            mode_classes |= {n.id for n in ast.walk(st.value) if isinstance(n, ast.Name)}
+    if not mode_classes:
+        raise AnalysisError("the scanner's Mode classes are not found")
+    mode_predicates = {}
+    tstate = repo.find_class(tkmod, "TokenizerState")
+    for m in tstate.body:
+        if isinstance(m, ast.FunctionDef) and len(m.body) == 1 and isinstance(m.body[0], ast.Return) and m.body[0].value is not None:
+            t = norm_stmt(m.body[0].value)
+            for mc in mode_classes:
+                if t == f"self.in_mode({mc})":
+                    mode_predicates[m.name] = mc
+    # does the f-string scanner report "nothing found" before it touches the state?
+    fsp = ix.get("handle_fstring_progs").node
+    quiet_nomatch = True
+    for k, st in enumerate(fsp.body):
+        falsy = [r for r in ast.walk(st) if isinstance(r, ast.Return) and (r.value is None or (isinstance(r.value, ast.Constant) and not r.value.value))]
+        if falsy:
+            before = fsp.body[:k]
+            if any(isinstance(n, (ast.Yield, ast.YieldFrom)) or
+                   (isinstance(n, ast.Call) and isinstance(n.func, ast.Attribute) and norm_stmt(n.func.value) == "state" and n.func.attr != "match") or
+                   (isinstance(n, (ast.Assign, ast.AugAssign)) and any(norm_stmt(t).startswith("state.") for t in (n.targets if isinstance(n, ast.Assign) else [n.target])))
+                   for b in before for n in ast.walk(b)):
+                quiet_nomatch = False
+    if set(mode_predicates.values()) != mode_classes:
+        raise AnalysisError(f"mode predicates {mode_predicates} do not cover the Mode subclasses {sorted(mode_classes)}")
     try:
-        hp = _sp3(he.node.body, split_bool=True)
-        stuck = []
-        for pth in hp:
-            c = {x[1]: x[2] for x in pth if x[0] == "cond"}
-            if c.get("state.pos == 0") is False and c.get("state.in_multi_line_string()") is False and c.get("state.in_continued_string()") is False \
-                    and c.get("state.in_fstring()") is not True and c.get("state.in_colon()") is not True:
-                stuck.append(pth)
-        # of those, the ones for a plain string (no mode object) must raise
-        plain = [p for p in stuck if any(x[0] == "cond" and x[1].endswith(".mode is None") and x[2] for x in p)]
-        ok = bool(plain) and all(p[-1][1] == "raise" for p in plain) and \
-            all(any(x[0] == "cond" and x[1].endswith(".mode is None") for x in p) for p in stuck if p[-1][1] != "raise"
-                and not any(x[0] == "cond" and x[1] in ("state.in_fstring()", "state.in_colon()") and x[2] for x in p))
-    except AnalysisError:
-        ok = False
-    chk.require(ok, "L2-accumulation", "handle_end_progs:unterminated-string", he.where,
-                "when an open string neither ends on the current line nor continues (triple quote / backslash), the tokenizer must raise; "
-                "falling through re-scans the string's text as code and lets the next line close it")
+        for pth in _sp3(he.node.body, split_bool=True):
+            step = next((k for k, x in enumerate(pth) if x[0] in ("cond", "do") and
+                         ("handle_fstring_progs(" in x[1] or "state.match(state.end_progs[-1].pattern" in x[1])), None)
+            if step is None:
+                continue
+            tail = pth[step + 1:]
+            # what the path knows about the step's outcome: the test it sits in, or a later test of the local it was bound to
+            step_truth = pth[step][2] if pth[step][0] == "cond" else None
+            if pth[step][0] == "do":
+                mm = _re.match(r"^([A-Za-z_]\w*) = \(?yield from handle_fstring_progs\(", pth[step][1])
+                if mm:
+                    for x in tail:
+                        if x[0] == "cond" and x[1] in (mm.group(1), f"not {mm.group(1)}"):
+                            step_truth = x[2] if x[1] == mm.group(1) else (not x[2])
+                            break
+            if step_truth is False and (quiet_nomatch or "handle_fstring_progs(" not in pth[step][1]):
+                # nothing changed between the tests before and after a scanner step that found nothing: a predicate of the state
+                # with two different answers makes the path infeasible
+                seen, clash = {}, False
+                for x in pth:
+                    if x[0] == "cond" and (x[1].startswith("state.") or x[1].startswith("not state.")):
+                        if seen.setdefault(x[1], x[2]) != x[2]:
+                            clash = True
+                if clash:
+                    continue
+            tc = {}
+            for x in tail:
+                if x[0] == "cond":
+                    tc.setdefault(x[1], set()).add(x[2])
+            pre_colon = any(x[0] == "cond" and x[1] == "state.in_colon()" and x[2] for x in pth)
+            joined = any(x[0] == "do" and any(a in x[1] for a in acc_calls) for x in tail)
+            is_f = "handle_fstring_progs(" in pth[step][1]
+            matched_known_false = step_truth is False
+            if joined and is_f and not matched_known_false:
+                why_match = (f"the rest of the line is joined onto the literal on a path where the f-string scanner may just have matched a "
+                             f"delimiter (its result is {'discarded' if step_truth is None else 'true'}): after the `}}` of `{{a:x}}` the text "
+                             f"` {{b}}\'\'\'` of a triple-quoted f-string, or the ` \\` that continues the *statement* after a one-quote "
+                             f"f-string, is swallowed (TokenError: EOF in multi-line string on valid Python)")
+            if joined and not (True in tc.get("state.in_multi_line_string()", ()) or True in tc.get("state.in_continued_string()", ())
+                               or True in tc.get("state.in_colon()", ()) or pre_colon and True in tc.get("state.in_colon()", (True,))):
+                why_join = ("a line is joined onto an open literal without the literal being triple-quoted or the line ending in a "
+                            "backslash continuation (e.g. because the call comes at the start of a line): `f\"abc\\⏎def⏎ghi\"` is "
+                            "accepted (CPython: unterminated f-string literal)")
+            left_open = not joined and pth[-1][1] != "raise" and not (True in tc.get("state.in_braces()", ())) \
+                and not (False in tc.get("state.end_progs", ()) or True in tc.get("not state.end_progs", ())) \
+                and not (step_truth is True)
+            # the mode on top of the stack is None (plain string) or one of the Mode subclasses: a path on which every kind test
+            # came out false is infeasible (nothing on it changes the stack: the scanner step did not match)
+            allc = {}
+            for x in pth:
+                if x[0] == "cond":
+                    allc.setdefault(x[1], set()).add(x[2])
+            kinds = ["state.end_progs[-1].mode is None"] + [f"state.{m}()" for m in mode_predicates]
+            if left_open and all(allc.get(k) == {False} for k in kinds):
+                left_open = False
+            if left_open and not pre_colon:
+                chk.units["left_open_path"] = [(x[1][:40], x[2]) for x in pth if x[0] == "cond"]
+                why_open = ("when an open string (plain, or the text part of an f-string) neither ends on the current line nor continues "
+                            "(triple quote / backslash), the tokenizer must raise; falling through re-scans the literal's text as code and "
+                            "lets the next line close it: `f\"abc⏎def\"` gives ERRORTOKENs for a, b, c and then an FSTRING_MIDDLE that "
+                            "starts in front of them")
+    except AnalysisError as e:
+        why_open = f"paths not analysable: {e}"
+    chk.count("L2-accumulation")
+    chk.require(not why_open, "L2-accumulation", "handle_end_progs:unterminated-string", he.where, why_open)
+    chk.count("L2-accumulation")
+    chk.require(not why_match, "L2-accumulation", "handle_end_progs:no-join-after-match", he.where, why_match)
+    chk.count("L2-accumulation")
+    chk.require(not why_join, "L2-accumulation", "handle_end_progs:join-only-when-continued", he.where, why_join)
     # a literal part continued with backslash-newline is joined whatever kind of literal it is (plain string or the text part of
     # an f-string): a path that neither joins nor raises has established that the line is not continued
     chk.count("L2-accumulation")
